@@ -59,6 +59,7 @@ use std::{
 };
 
 pub const COMP: u128 = 12;
+pub const COMP_CANCEL: u128 = 19;
 pub const P: u64 = 1_000_003;
 const SRV_ID: u32 = 1_000_000;
 const ERR_ID: u32 = 1_000_001;
@@ -114,7 +115,9 @@ pub fn f_take(s: u64, x: u64) -> u64 {
 
 #[derive(Clone, Copy, Debug, PartialEq, Eq)]
 pub enum Ev {
-    Inv { id: u32, cl: u32, meth: u8, x: u64 },
+    Inv { id: u32, cl: u32, meth: u8, x: u64, flags: u8 },
+    Cut,
+    WindDown,
     DropCall(u32),
     Started(u32),
     Applied(u32, u64),
@@ -410,6 +413,16 @@ pub fn parse(inp: &[u128]) -> Option<Case> {
     Some(c)
 }
 
+/// the method a remote function flavour runs, whatever the op says
+fn eff_meth(flav: u128, meth: u128) -> u128 {
+    match flav {
+        6 => 1,
+        7 => 3,
+        8 => 5,
+        _ => meth,
+    }
+}
+
 fn method_ok(flav: u128, meth: u128) -> bool {
     match flav {
         0 => meth <= 5,
@@ -419,10 +432,10 @@ fn method_ok(flav: u128, meth: u128) -> bool {
     }
 }
 
+/// Quiescence barrier: with the clock paused the sleep returns only when every other task is idle
+/// (no `spawn_blocking` work is involved here: all items are far below the streaming threshold).
 async fn barrier() {
-    for _ in 0..2 {
-        tokio::time::sleep(Duration::from_nanos(1)).await;
-    }
+    tokio::time::sleep(Duration::from_nanos(1)).await;
 }
 
 fn err_class(e: &CallError) -> u8 {
@@ -654,7 +667,7 @@ fn start_call(c: &Case, ctl: &Arc<Ctl>, clients: &mut [Option<Cl>], id: u32, cl:
         return None;
     }
     let slot = clients.get_mut(cl)?;
-    let inv = Ev::Inv { id, cl: cl as u32, meth: meth as u8, x };
+    let inv = Ev::Inv { id, cl: cl as u32, meth: eff_meth(c.flav, meth) as u8, x, flags: flags as u8 };
     let h: CallFut = match slot.as_mut()? {
         Cl::M(m) => {
             let mut m = m.clone();
@@ -841,6 +854,7 @@ async fn run_case(c: Case) -> Option<Trace> {
             3 => {
                 net.a2b.fail(Fault::StreamErr);
                 net.b2a.fail(Fault::StreamErr);
+                ctl.push(Ev::Cut);
                 0
             }
             4 => match clients.get_mut(o[1] as usize) {
@@ -904,6 +918,7 @@ async fn run_case(c: Case) -> Option<Trace> {
         mark = now;
     }
     // wind down (oracle only): everything in flight is delivered, every gate opens, clients go away
+    ctl.push(Ev::WindDown);
     net.set_auto(true);
     ctl.open_all();
     barrier().await;
@@ -919,6 +934,7 @@ async fn run_case(c: Case) -> Option<Trace> {
     if n > 0 {
         ctl.push(Ev::UserErrs(n));
     }
+    let log = ctl.log.lock().unwrap().clone();
     for (_, h) in calls.iter().flatten() {
         if let Some(h) = h {
             h.abort();
@@ -927,7 +943,6 @@ async fn run_case(c: Case) -> Option<Trace> {
     srv.abort();
     ja.abort();
     jb.abort();
-    let log = ctl.log.lock().unwrap().clone();
     Some(Trace { log, steps, final_state, polled_once })
 }
 
@@ -942,7 +957,7 @@ fn ev_nums(e: &Ev) -> Option<(u32, u128, u128)> {
         Ev::UserErrs(n) => (ERR_ID, 8, n as u128),
         Ev::SrvDone(c) => (SRV_ID, 9, c as u128),
         Ev::Torn(i) => (i, 7, 0),
-        Ev::Inv { .. } | Ev::DropCall(_) => return None,
+        Ev::Inv { .. } | Ev::DropCall(_) | Ev::Cut | Ev::WindDown => return None,
     })
 }
 
@@ -986,7 +1001,323 @@ pub fn exec(inp: &[u128]) -> (Vec<u128>, String, String) {
     } else {
         out.push(1);
     }
-    (out, "todo".into(), "ok".into())
+    let verdict = oracle(&c, &t);
+    (out, signature(&c, &t), verdict)
+}
+
+// ------------------------------------------------------------------------------------------------
+// the oracle: the properties, stated directly on the recorded trace
+
+struct CallInfo {
+    meth: u8,
+    x: u64,
+    flags: u8,
+    inv_at: usize,
+    dropped_at: Option<usize>,
+    started: Vec<usize>,
+    applied: Vec<(usize, u64)>,
+    finished: Vec<usize>,
+    cancelled: Vec<usize>,
+    ret: Vec<(usize, Option<u64>)>,
+}
+
+fn collect(t: &Trace) -> Vec<CallInfo> {
+    let mut v: Vec<CallInfo> = Vec::new();
+    for (p, e) in t.log.iter().enumerate() {
+        match *e {
+            Ev::Inv { id, meth, x, flags, .. } => {
+                assert_eq!(id as usize, v.len());
+                v.push(CallInfo {
+                    meth,
+                    x,
+                    flags,
+                    inv_at: p,
+                    dropped_at: None,
+                    started: vec![],
+                    applied: vec![],
+                    finished: vec![],
+                    cancelled: vec![],
+                    ret: vec![],
+                });
+            }
+            Ev::DropCall(i) => v[i as usize].dropped_at = Some(p),
+            Ev::Started(i) => v[i as usize].started.push(p),
+            Ev::Applied(i, r) => v[i as usize].applied.push((p, r)),
+            Ev::Finished(i) => v[i as usize].finished.push(p),
+            Ev::Cancelled(i) => v[i as usize].cancelled.push(p),
+            Ev::RetVal(i, r) => v[i as usize].ret.push((p, Some(r))),
+            Ev::RetErr(i, _) => v[i as usize].ret.push((p, None)),
+            _ => {}
+        }
+    }
+    v
+}
+
+fn is_mut_meth(m: u8) -> bool {
+    m == 2 || m == 3
+}
+fn no_cancel(c: &Case, m: u8) -> bool {
+    c.flav >= 6 || m % 2 == 1
+}
+
+/// Asks the verified checker (`Lin.linearizable`, extracted) about a client history.
+fn verified_lin(history: &[u128]) -> Result<bool, String> {
+    use std::io::{Read, Write};
+    let mrun = std::env::var("VERIF_MRUN").map(std::path::PathBuf::from).unwrap_or_else(|_| {
+        let exe = std::env::current_exe().unwrap_or_default();
+        exe.ancestors().nth(4).map(|r| r.join("mrun/extracted/mrun")).unwrap_or_default()
+    });
+    let mut child = std::process::Command::new(&mrun)
+        .stdin(std::process::Stdio::piped())
+        .stdout(std::process::Stdio::piped())
+        .stderr(std::process::Stdio::null())
+        .spawn()
+        .map_err(|e| format!("cannot start the verified checker {}: {e}", mrun.display()))?;
+    let mut line = format!("{COMP} 9 0");
+    for x in history {
+        line.push(' ');
+        line.push_str(&x.to_string());
+    }
+    line.push('\n');
+    child.stdin.take().unwrap().write_all(line.as_bytes()).map_err(|e| e.to_string())?;
+    let mut out = String::new();
+    child.stdout.take().unwrap().read_to_string(&mut out).map_err(|e| e.to_string())?;
+    let _ = child.wait();
+    match out.trim() {
+        "1" => Ok(true),
+        "0" => Ok(false),
+        o => Err(format!("verified checker answered {o:?}")),
+    }
+}
+
+/// C12: O1 every call has at most one outcome, and exactly one unless its future was dropped;
+///      O2 a returned value is the value the target computed for this very call;
+///      O3 every call is started / applied at most once (whatever its outcome);
+///      O4 while a `&mut` method is executing no other method of the target is (no torn read either);
+///      O5 the client-visible history is linearizable (verified checker).
+/// C19: O6 a cancellable method whose caller is gone is abandoned at its suspension point (scripted: in
+///         the same big step) and a call dropped while queued never starts; a no_cancel method that
+///         started finishes and is never cancelled;
+///      O7 a call fails only for a reason of its own (undecodable/oversized request or reply), a lost
+///         connection, or a server that ended for a legitimate reason (policy Fail after an undecodable
+///         request, target consumed by a by-value call); `serve()` never ends with a reply error.
+fn oracle(c: &Case, t: &Trace) -> String {
+    let calls = collect(t);
+    let wind = t.log.iter().position(|e| *e == Ev::WindDown).unwrap_or(t.log.len());
+    let cut_at = t.log.iter().position(|e| *e == Ev::Cut);
+    if let Some(Ev::Torn(i)) = t.log.iter().find(|e| matches!(e, Ev::Torn(_))) {
+        return format!("FAIL: O4 call {i} read two different target states while it held the target");
+    }
+    for (i, k) in calls.iter().enumerate() {
+        if k.ret.len() > 1 {
+            return format!("FAIL: O1 call {i} completed {} times", k.ret.len());
+        }
+        if k.dropped_at.is_none() && k.ret.is_empty() {
+            return format!("FAIL: O1 call {i} never completed although everything was released (server wedged?)");
+        }
+        if k.started.len() > 1 || k.applied.len() > 1 {
+            return format!("FAIL: O3 call {i} was executed {} times (applied {} times)", k.started.len(), k.applied.len());
+        }
+        if k.finished.len() + k.cancelled.len() > k.started.len() {
+            return format!("FAIL: O3 call {i} ended more often than it started");
+        }
+        if let Some((p, Some(v))) = k.ret.first() {
+            match k.applied.first() {
+                Some((pa, va)) if va == v && pa < p => {}
+                Some((_, va)) => return format!("FAIL: O2 call {i} returned {v} but the target computed {va} for it"),
+                None => return format!("FAIL: O2 call {i} returned {v} although the target never executed it"),
+            }
+        }
+    }
+    // O4 mutual exclusion on the execution log (one target per case, except rfn 6/8: a target per call)
+    if c.flav != 6 && c.flav != 8 {
+        let mut running: Vec<u32> = Vec::new();
+        for e in &t.log {
+            match *e {
+                Ev::Started(i) => {
+                    let m = calls[i as usize].meth;
+                    if let Some(j) = running.iter().find(|j| is_mut_meth(calls[**j as usize].meth) || is_mut_meth(m)) {
+                        return format!("FAIL: O4 call {i} started while call {j} was executing and one of them takes the target mutably");
+                    }
+                    running.push(i);
+                }
+                Ev::Finished(i) | Ev::Cancelled(i) => running.retain(|j| *j != i),
+                _ => {}
+            }
+        }
+    }
+    // O5 linearizability of the client-visible history
+    let mut hist: Vec<u128> = Vec::new();
+    for e in &t.log {
+        match *e {
+            Ev::Inv { id, meth, x, .. } => hist.extend([0, id as u128, meth as u128, x as u128, 0]),
+            Ev::RetVal(i, v) => hist.extend([1, i as u128, 0, 0, v as u128]),
+            Ev::RetErr(i, _) => hist.extend([2, i as u128, 0, 0, 0]),
+            _ => {}
+        }
+    }
+    if calls.iter().any(|k| matches!(k.ret.first(), Some((_, Some(_))))) {
+        match verified_lin(&hist) {
+            Ok(true) => {}
+            Ok(false) => return "FAIL: O5 the recorded client history is not linearizable (verified checker)".into(),
+            Err(e) => return format!("FAIL: O5 {e}"),
+        }
+    }
+    // O6 cancellation
+    let step_end = |p: usize| t.steps.iter().map(|s| s.2).find(|e| *e > p).unwrap_or(t.log.len());
+    for (i, k) in calls.iter().enumerate() {
+        let nc = no_cancel(c, k.meth);
+        if nc {
+            if !k.cancelled.is_empty() {
+                return format!("FAIL: O6 no_cancel call {i} was cancelled");
+            }
+            if !k.started.is_empty() && k.finished.is_empty() {
+                return format!("FAIL: O6 no_cancel call {i} started but never finished");
+            }
+            continue;
+        }
+        // the moment the caller went away: dropped future or lost connection
+        let gone = match (k.dropped_at, cut_at) {
+            (Some(d), Some(x)) => Some(d.min(x)),
+            (Some(d), None) => Some(d),
+            (None, Some(x)) if x > k.inv_at => Some(x),
+            _ => None,
+        };
+        let Some(g) = gone else { continue };
+        if k.ret.first().map_or(false, |(p, _)| *p < g) {
+            continue; // had completed before
+        }
+        if c.mode == 0 {
+            let end = step_end(g);
+            match k.started.first() {
+                Some(&st) if st < g => {
+                    // executing when the caller went away: suspended at a gate or already past the last one
+                    let fin = k.finished.first().map_or(false, |f| *f < g);
+                    if !fin {
+                        match k.cancelled.first() {
+                            Some(&cp) if cp < end => {}
+                            _ if k.finished.first().map_or(false, |f| *f < end) => {} // was not suspended
+                            _ => return format!("FAIL: O6 cancellable call {i} was not abandoned when its caller went away"),
+                        }
+                    }
+                }
+                Some(_) => return format!("FAIL: O6 call {i} was started after its caller had gone away"),
+                None => {}
+            }
+        } else if k.dropped_at.is_some() && k.started.is_empty() {
+            // never started: fine
+        }
+        // whatever the mode: at the end a cancellable method whose caller went away while it was suspended
+        // has been abandoned or has finished, and nothing is left executing
+        if !k.started.is_empty() && k.finished.is_empty() && k.cancelled.is_empty() {
+            return format!("FAIL: O6 call {i} is still executing at the end");
+        }
+    }
+    // O7 failures stay with the failing call
+    let srv_done: Vec<(usize, u8)> = t.log.iter().enumerate().filter_map(|(p, e)| if let Ev::SrvDone(r) = e { Some((p, *r)) } else { None }).collect();
+    let bad_before = |p: usize| calls.iter().any(|k| k.flags & 4 != 0 && k.inv_at < p);
+    let value_before = |p: usize| calls.iter().any(|k| k.meth >= 4 && k.inv_at < p);
+    for (p, r) in &srv_done {
+        match r {
+            2 => return "FAIL: O7 serve() ended with a reply error: one oversized reply ends service for every client".into(),
+            1 if !(c.pol == 2 && bad_before(*p)) => return "FAIL: O7 serve() ended with a receive error although the policy is not Fail".into(),
+            0 if *p < wind && cut_at.map_or(true, |x| x > *p) && !value_before(*p) && !all_clients_dropped_before(c, t, *p) => {
+                return "FAIL: O7 serve() ended although clients are alive and the connection is up".into()
+            }
+            _ => {}
+        }
+    }
+    for (i, k) in calls.iter().enumerate() {
+        if let Some((p, None)) = k.ret.first() {
+            if k.flags & (4 | 8 | 16 | 32) != 0 || t.polled_once.contains(&(i as u32)) {
+                continue;
+            }
+            if cut_at.map_or(false, |x| x < *p) {
+                continue;
+            }
+            let legit_end = srv_done.iter().any(|(sp, r)| *sp < *p && ((*r == 1 && c.pol == 2) || *r == 0))
+                || (c.pol == 2 && bad_before(*p))
+                || value_before(k.inv_at);
+            if legit_end {
+                continue;
+            }
+            return format!("FAIL: O7 call {i} failed although nothing is wrong with it, the connection is up and the server has no reason to stop");
+        }
+    }
+    "ok".into()
+}
+
+fn all_clients_dropped_before(c: &Case, t: &Trace, p: usize) -> bool {
+    // dropclient ops are not in the log; approximate from the ops: every client index was dropped in a step that ended before p
+    let mut dropped = vec![false; c.ncl];
+    for (o, st) in c.ops.iter().zip(t.steps.iter()) {
+        if st.1 > p {
+            break;
+        }
+        if o[0] == 4 && st.0 == 0 && (o[1] as usize) < c.ncl {
+            dropped[o[1] as usize] = true;
+        }
+    }
+    dropped.iter().all(|d| *d)
+}
+
+fn signature(c: &Case, t: &Trace) -> String {
+    let calls = collect(t);
+    let mut s = String::new();
+    if calls.iter().any(|k| k.flags & 16 != 0) && c.lim != 0 && c.flav < 6 {
+        s.push_str("F6:");
+    }
+    if calls.iter().any(|k| k.flags & 32 != 0) && c.flav < 6 {
+        s.push_str("F12:");
+    }
+    s.push_str(if c.mode == 0 { "scr" } else { "race" });
+    s.push_str(&format!(":f{}{}:p{}:c{}", c.flav, if c.spawn && (c.flav == 3 || c.flav == 4) { "s" } else { "n" }, c.pol, c.ncl));
+    let wind = t.log.iter().position(|e| *e == Ev::WindDown).unwrap_or(t.log.len());
+    // concurrency: a call invoked while another one was outstanding
+    let mut open: Vec<u32> = Vec::new();
+    let mut conc = false;
+    let mut overlap_exec = false;
+    let mut running = 0;
+    for e in &t.log[..wind] {
+        match *e {
+            Ev::Inv { id, .. } => {
+                if !open.is_empty() {
+                    conc = true;
+                }
+                open.push(id);
+            }
+            Ev::RetVal(i, _) | Ev::RetErr(i, _) | Ev::DropCall(i) => open.retain(|j| *j != i),
+            Ev::Started(_) => {
+                running += 1;
+                if running > 1 {
+                    overlap_exec = true;
+                }
+            }
+            Ev::Finished(_) | Ev::Cancelled(_) => running -= 1,
+            _ => {}
+        }
+    }
+    let mut feat = |b: bool, name: &str| {
+        if b {
+            s.push(':');
+            s.push_str(name);
+        }
+    };
+    feat(conc, "conc");
+    feat(overlap_exec, "par");
+    feat(calls.iter().any(|k| is_mut_meth(k.meth) && k.ret.first().map_or(false, |r| r.1.is_some())), "mut");
+    feat(calls.iter().any(|k| k.meth >= 4), "val");
+    feat(calls.iter().any(|k| !k.cancelled.is_empty()), "cancel");
+    feat(calls.iter().any(|k| k.dropped_at.is_some() && k.started.is_empty() && k.flags & 128 == 0), "skip");
+    feat(calls.iter().any(|k| k.dropped_at.is_some() && !k.finished.is_empty() && no_cancel(c, k.meth)), "ncdone");
+    feat(calls.iter().any(|k| k.flags & 128 != 0), "unpolled");
+    feat(calls.iter().any(|k| k.flags & 4 != 0), "qbad");
+    feat(calls.iter().any(|k| k.flags & 8 != 0), "rbad");
+    feat(t.log.contains(&Ev::Cut), "cut");
+    feat(t.log[..wind].iter().any(|e| matches!(e, Ev::SrvDone(1))), "fail");
+    feat(t.log[..wind].iter().any(|e| matches!(e, Ev::SrvDone(0))), "end");
+    feat(calls.iter().any(|k| matches!(k.ret.first(), Some((_, None)))), "err");
+    s
 }
 
 fn pick_method(r: &mut Rng, flav: u64) -> u64 {
@@ -1001,50 +1332,50 @@ fn pick_method(r: &mut Rng, flav: u64) -> u64 {
     }
 }
 
-/// One scripted (mode 0) or race (mode 1) case.  `special`: 0 none, 1 oversized replies (F6), 2 oversized requests (F12).
-fn gen_case(r: &mut Rng, mode: u64, special: u64) -> Vec<u128> {
+/// One scripted (mode 0) or race (mode 1) case.  `profile` 0: C12 (concurrency, mixes of methods, few
+/// disturbances), 1: C19 (dropped calls, lost connections, undecodable requests and replies).
+fn gen_case(r: &mut Rng, mode: u64, profile: u64) -> Vec<u128> {
     let flav = *r.pick(&[0u64, 1, 2, 2, 3, 3, 4, 4, 4, 4, 5, 6, 7, 8]);
-    let flav = if special != 0 { *r.pick(&[1u64, 2, 3, 4, 4, 5]) } else { flav };
     let spawn = r.below(2);
     let pol = *r.pick(&[0u64, 0, 0, 1, 2]);
     let ncl = if matches!(flav, 0 | 7 | 8) { 1 } else { r.range(1, 4) };
     let cmode = r.below(2);
     let defer = if mode == 1 && r.chance(2, 3) { r.next() | 1 } else { 0 };
-    let lim = if special == 1 || r.chance(1, 5) { 2000 } else { 0 };
+    let lim = if r.chance(1, 5) { 2000 } else { 0 };
     let mut v: Vec<u128> = vec![mode as u128, flav as u128, spawn as u128, pol as u128, ncl as u128, cmode as u128, defer as u128, lim as u128];
     let nops = r.range(4, 28);
     let mut ncalls = 0u64;
     let mut held: Vec<(u64, u64)> = Vec::new();
     let mut cut_done = false;
-    let mut push = |v: &mut Vec<u128>, o: [u64; 5]| v.extend(o.iter().map(|x| *x as u128));
+    let push = |v: &mut Vec<u128>, o: [u64; 5]| v.extend(o.iter().map(|x| *x as u128));
+    // how often things go wrong
+    let (p_bad, p_drop, p_cut, p_dropcl) = if profile == 0 { (40, 4, 1, 3) } else { (10, 14, 4, 5) };
     for k in 0..nops {
         let x = r.below(100);
         if x < 50 || ncalls == 0 {
             let cl = if r.chance(1, 30) { r.below(5) } else { r.below(ncl) };
             let m = pick_method(r, flav);
             let mut fl = 0u64;
-            if r.chance(1, 4) {
+            if r.chance(1, 3) {
                 fl |= 1;
             }
             if r.chance(1, 4) {
                 fl |= 2;
             }
-            if r.chance(1, 16) {
+            if r.chance(1, p_bad) {
                 fl |= 4;
             }
-            if r.chance(1, 16) {
+            if r.chance(1, p_bad) {
                 fl |= 8;
             }
-            if r.chance(1, 14) {
+            if profile == 1 {
+                if r.chance(1, 12) {
+                    fl |= 64;
+                } else if r.chance(1, 30) {
+                    fl |= 128;
+                }
+            } else if r.chance(1, 60) {
                 fl |= 64;
-            } else if r.chance(1, 30) {
-                fl |= 128;
-            }
-            if special == 1 && r.chance(1, 4) {
-                fl |= 16;
-            }
-            if special == 2 && r.chance(1, 5) {
-                fl |= 32;
             }
             if fl & 1 != 0 {
                 held.push((ncalls, 1));
@@ -1054,20 +1385,20 @@ fn gen_case(r: &mut Rng, mode: u64, special: u64) -> Vec<u128> {
             }
             push(&mut v, [0, cl, m, r.below(20), fl]);
             ncalls += 1;
-        } else if x < 72 {
-            if !held.is_empty() && r.chance(4, 5) {
+        } else if x < 78 {
+            if !held.is_empty() && r.chance(5, 6) {
                 let i = r.below(held.len() as u64) as usize;
                 let (c, g) = held.remove(i);
                 push(&mut v, [1, c, g, 0, 0]);
             } else {
                 push(&mut v, [1, r.below(ncalls + 1), r.range(0, 3), 0, 0]);
             }
-        } else if x < 84 {
+        } else if x < 78 + p_drop {
             push(&mut v, [2, r.below(ncalls + 1), 0, 0, 0]);
-        } else if x < 87 && !cut_done && k > 2 {
+        } else if x < 78 + p_drop + p_cut && !cut_done && k > 2 {
             cut_done = true;
             push(&mut v, [3, 0, 0, 0, 0]);
-        } else if x < 92 {
+        } else if x < 78 + p_drop + p_cut + p_dropcl && k > 3 {
             push(&mut v, [4, r.below(ncl + 1), 0, 0, 0]);
         } else if mode == 1 {
             push(&mut v, [6, 0, 0, 0, 0]);
@@ -1096,13 +1427,45 @@ fn gen_case(r: &mut Rng, mode: u64, special: u64) -> Vec<u128> {
     v
 }
 
+/// The known classes, as small scripted cases: a call whose reply exceeds the client's limit (F6) /
+/// whose request exceeds it (F12), surrounded by ordinary calls of the same and of other clients.
+fn gen_known(r: &mut Rng, which: u64) -> Vec<u128> {
+    let flav = if which == 1 { *r.pick(&[1u64, 2, 3, 4, 4, 5]) } else { *r.pick(&[1u64, 2, 3, 4, 5]) };
+    let spawn = r.below(2);
+    // F12: every client on its own port (the model has no notion of clones sharing one)
+    let (ncl, cmode) = if which == 2 { (r.range(1, 3), 1) } else { (r.range(2, 4), r.below(2)) };
+    let mut v: Vec<u128> = vec![0, flav as u128, spawn as u128, 0, ncl as u128, cmode as u128, 0, 2000];
+    let push = |v: &mut Vec<u128>, o: [u64; 5]| v.extend(o.iter().map(|x| *x as u128));
+    let before = r.range(0, 3);
+    let after = r.range(1, 4);
+    for _ in 0..before {
+        push(&mut v, [0, r.below(ncl), pick_method(r, flav).min(3), r.below(20), 0]);
+    }
+    let victim = r.below(ncl);
+    push(&mut v, [0, victim, pick_method(r, flav).min(3), r.below(20), if which == 1 { 16 } else { 32 }]);
+    for k in 0..after {
+        let cl = if k == 0 { victim } else { r.below(ncl) };
+        push(&mut v, [0, cl, pick_method(r, flav).min(3), r.below(20), 0]);
+    }
+    v
+}
+
 pub fn gen(r: &mut Rng, i: usize) -> Vec<Vec<u128>> {
-    let (mode, special) = match i % 16 {
-        3 | 7 | 11 => (1, 0),
-        15 => (1, if (i / 16) % 2 == 0 { 1 } else { 2 }),
-        _ => (0, 0),
-    };
-    vec![gen_case(r, mode, special)]
+    let mode = if i % 3 == 2 { 1 } else { 0 };
+    vec![gen_case(r, mode, 0)]
+}
+
+pub fn gen_cancel(r: &mut Rng, i: usize) -> Vec<Vec<u128>> {
+    if i % 24 == 23 {
+        return vec![gen_known(r, 1 + (i / 24 % 2) as u64)];
+    }
+    let mode = if i % 3 == 2 { 1 } else { 0 };
+    vec![gen_case(r, mode, 1)]
+}
+
+pub fn run_cancel(seed: u64, count: usize, extra: &[String], out: &mut impl std::io::Write) {
+    let seed = Rng::new(seed ^ 0xC19).next();
+    crate::drive(COMP_CANCEL, seed, count, extra, out, gen_cancel, exec);
 }
 
 pub fn run(seed: u64, count: usize, extra: &[String], out: &mut impl std::io::Write) {
